@@ -29,6 +29,13 @@ def extra_cases(tier):
     C.append(Case("FuelLoads[symL_2x3]", F("structures.fuel_loads", "FuelLoads", surface=sw)))
     C.append(Case("WingboxFuelVolDelta[symL_2x3]", F("structures.wingbox_fuel_vol_delta", "WingboxFuelVolDelta", surface=sw)))
     C.append(Case("WingboxFuelVolDelta[full_2x3]", F("structures.wingbox_fuel_vol_delta", "WingboxFuelVolDelta", surface=K.surface(2, 3, False, fem_model_type="wingbox"))))
+    # wingbox section chain: all partials approximated, so C01's analytic obligations do not apply, but history, input
+    # preservation and the complex-step model do
+    # (one element: the smooth-maximum shifts fork once per airfoil data point and element)
+    C.append(Case("SectionPropertiesWingbox[symL_2x2]", F("structures.section_properties_wingbox", "SectionPropertiesWingbox",
+                                                           surface=K.surface(2, 2, True, fem_model_type="wingbox")), max_paths=64))
+    C.append(Case("WingboxGeometry[symL_2x3]", F("structures.wingbox_geometry", "WingboxGeometry", surface=sw)))
+    C.append(Case("SparWithinWing[symL_2x3]", F("structures.spar_within_wing", "SparWithinWing", surface=s)))
     C.append(Case("ComputePointMassLoads[symL_2x3]", F("structures.compute_point_mass_loads", "ComputePointMassLoads",
                                                        surface=dict(s, n_point_masses=1))))
     C.append(Case("ComputeThrustLoads[symL_2x3]", F("structures.compute_thrust_loads", "ComputeThrustLoads",
